@@ -65,7 +65,7 @@ func init() {
 		}
 		// directed: a nearly full bounded file whose meta area is completely in use and which never freed a page: no
 		// free list is stored (free-list root 0) although the meta area is not empty (seeded change C10k)
-		for _, maxPages := range []int{15, 17, 19, 21, 24} {
+		for _, maxPages := range []int{16, 17, 19, 21, 24} {
 			for over := 1; over <= 4; over++ {
 				cfg := engine.Config{PageSize: 4096, MaxSize: uint64(maxPages) * 4096}
 				H := []engine.Op{{Kind: "begin"}, {Kind: "alloc", N: 10}}
